@@ -457,6 +457,12 @@ var c12Save = pbt.Register(pbt.Prop[C12Save]{
 		}
 		c.Seed = rapid.Uint64().Draw(t, "seed")
 		c.Fill = rapid.IntRange(0, 2).Draw(t, "fill")
+		if len(c.Palette) >= 3 && rapid.IntRange(0, 7).Draw(t, "dup") == 5 {
+			// a saved palette may list an id twice (vanilla never writes one, but reads it: an index is just
+			// looked up); both entries stay addressable
+			i := rapid.IntRange(1, len(c.Palette)-1).Draw(t, "dup_at")
+			c.Palette[i] = c.Palette[rapid.IntRange(0, i-1).Draw(t, "dup_of")]
+		}
 		if rapid.Bool().Draw(t, "mutate_sibling") {
 			n := rapid.IntRange(1, 6).Draw(t, "nmuts")
 			for i := 0; i < n; i++ {
@@ -472,6 +478,14 @@ var c12Save = pbt.Register(pbt.Prop[C12Save]{
 	Check: c12CheckSave,
 	Classify: func(c C12Save) (bool, []string, []byte) {
 		labels := []string{fmt.Sprintf("save_%s_palette_%d", c.Kind, len(c.Palette))}
+		seenP := map[int]bool{}
+		for _, v := range c.Palette {
+			if seenP[v] {
+				labels = append(labels, "saved_palette_with_repeated_id")
+				break
+			}
+			seenP[v] = true
+		}
 		if len(c.Muts) > 0 {
 			labels = append(labels, "sibling_container_mutated_first")
 		}
